@@ -587,3 +587,29 @@ pub fn open_limit_native(limit: u8) -> u32 {
     }
     1
 }
+
+/// Native replay body for the E2 query `e2_received_max_stream_data_limit` (C06): a server that allows
+/// `max_remote` streams per direction gets MAX_STREAM_DATA for the client-initiated bidirectional stream with
+/// index `index`.  A stream beyond the limit is a STREAM_LIMIT_ERROR (RFC 9000 4.6) and must not be counted as
+/// opened: otherwise `Streams::accept` hands the application streams the peer was never allowed to open.
+pub fn max_stream_data_limit_native(max_remote: u8, index: u64) -> u32 {
+    use super::state::verif::{mk_streams, Scalars};
+    let lim = max_remote as u64;
+    let mut st = mk_streams(&Scalars { server: true, max_remote: [lim, lim], max_data: 1 << 20, send_window: 1 << 20, ..Default::default() });
+    let id = StreamId::new(crate::Side::Client, Dir::Bi, index);
+    let res = st.received_max_stream_data(id, 1000);
+    if index >= lim {
+        assert!(matches!(&res, Err(e) if e.code == crate::TransportErrorCode::STREAM_LIMIT_ERROR), "MAX_STREAM_DATA for stream index {} accepted against a limit of {} streams", index, lim);
+    }
+    assert!(st.next_remote[Dir::Bi as usize] <= lim, "{} peer-initiated streams counted as opened against a limit of {}", st.next_remote[Dir::Bi as usize], lim);
+    let conn_state = crate::connection::State::Established;
+    let mut accepted = 0u64;
+    for _ in 0..(lim + 3) {
+        let mut s = Streams { state: &mut st, conn_state: &conn_state };
+        if s.accept(Dir::Bi).is_some() {
+            accepted += 1;
+        }
+    }
+    assert!(accepted <= lim, "the application was handed more streams than the limit allows");
+    1
+}
